@@ -177,7 +177,7 @@ impl Prop for C01 {
         tier.pick(700, 900)
     }
     fn cases(&self, tier: Tier) -> u32 {
-        tier.pick(60_000, 1_500_000)
+        tier.pick(300_000, 6_000_000)
     }
     fn decode(&self, choices: &[u32], tier: Tier) -> Value {
         let c = decode_case(choices, tier, &opts(tier), tier.pick(24, 40), &[3, 4, 2]);
